@@ -354,12 +354,18 @@ def build(spec, skip=()):
     # parent-level coupling (declared after all stages exist)
     B.stage = ocp
     for c in spec.get("coupling", []):
-        apply_constraint(B, ocp, c)
+        # "on": name of the sub-stage whose subject_to receives the constraint (default: the parent)
+        apply_constraint(B, B.stages[c["on"]] if c.get("on") else ocp, c)
     for t in spec.get("parent_objective", []):
         ocp.add_objective(E.to_ca(t, B, ocp))
     if "solver" not in skip:
         sv = spec.get("solver", ["ipopt", {}])
         opts = dict(IPOPT_QUIET) if sv[0] == "ipopt" else {}
-        opts.update(sv[1])
+        if isinstance(sv[1].get("ipopt"), dict):
+            # plugin options given as a nested dictionary
+            opts = {"print_time": False, "ipopt": dict({"print_level": 0, "sb": "yes"}, **sv[1]["ipopt"])}
+            opts.update({k: v for k, v in sv[1].items() if k != "ipopt"})
+        else:
+            opts.update(sv[1])
         ocp.solver(sv[0], opts)
     return B
